@@ -48,7 +48,12 @@ OTHER = ["mix", "deser", "lazy", "big-align", "unnamed", "shared", "subgraph", "
          "subgraph-empty", "subgraph-deep", "uninit-sub-empty", "uninit-sub-else", "uninit-sub-deep", "uninit-sub-deep-empty",
          # sibling branches owning initializers of the SAME name (separate scopes, legal): all initialized, the
          # uninitialized one first / second in traversal order, and at the deeper level (seeded C20e keyed by name)
-         "subgraph-samename", "uninit-sub-samename", "uninit-sub-samename-else", "uninit-sub-samename-deep"]
+         "subgraph-samename", "uninit-sub-samename", "uninit-sub-samename-else", "uninit-sub-samename-deep",
+         # histories of the SAME model object: it passes the module's check_model() / is saved once successfully (to
+         # another directory) while fully initialized, then an initializer loses its value, then it is saved
+         # (seeded C20f: a "validated" marker left on the model let the save skip its guard)
+         "uninit-after-check", "uninit-sub-after-check", "uninit-after-save", "uninit-sub-after-save",
+         "mix-after-check", "mix-after-save"]
 MODELS = SINGLE + OTHER
 # thorough tier: every ordered pair of (dtype, size) atoms as two initializers of one model (write order is by size,
 # offsets depend on the neighbour); destination/verbose/path stay at their defaults for these
@@ -126,6 +131,35 @@ def _layout(root, dest, pathkind):
 
 
 def build(mid, root, full_model_path):
+    """History models '<base>-after-<op>' are built as their fully initialized base, taken through <op>, then edited."""
+    for suffix, op in (("-after-check", "check"), ("-after-save", "save")):
+        if mid.endswith(suffix):
+            stem = mid[: -len(suffix)]
+            base = {"uninit": "mix", "uninit-sub": "subgraph", "mix": "mix"}[stem]
+            b = _build(base, root, full_model_path)
+            from onnxscript._framework_apis import torch_2_5 as api
+            if op == "check":
+                api.check_model(b.model)
+            else:
+                pre = os.path.join(root, "pre_history")
+                os.makedirs(pre, exist_ok=True)
+                api.save_model_with_external_data(b.model, os.path.join(pre, "first.onnx"))
+            if stem.startswith("uninit"):
+                # the edit after the history: one initializer loses its value (main graph 'a' / the then-branch's own)
+                label, name = ("main", "a") if stem == "uninit" else ("then", "then_w")
+                new = []
+                for (l2, n2, v, raw) in b.tracked:
+                    if (l2, n2) == (label, name):
+                        v.const_value = None
+                        raw = None
+                    new.append((l2, n2, v, raw))
+                b.tracked = new
+                b.expect_refusal = "uninit"
+            return b
+    return _build(mid, root, full_model_path)
+
+
+def _build(mid, root, full_model_path):
     """Creates directories/files under root and returns Built."""
     import numpy as np
     from onnxscript import ir
